@@ -1268,8 +1268,13 @@ class Node:
             self.logger.warning(
                 f"{conn} CER rejected with {message.result_code} (message: "
                 f"{message.error_message}), closing connection")
-            self.close_connection_socket(
-                conn, DISCONNECT_REASON_CER_REJECTED)
+            # this runs in the connection's own worker thread, while the socket
+            # belongs to the node's main thread: note the reason and have the
+            # main thread close the connection
+            peer = self._find_connection_peer(conn)
+            if peer and peer.disconnect_reason is None:
+                peer.disconnect_reason = DISCONNECT_REASON_CER_REJECTED
+            conn.close()
             return
 
         # TODO: for SCTP, compare configured IP addresses with advertised and
